@@ -57,7 +57,8 @@ def gen_cases(ctx):
         p = {
             "num_jobs": lo_j if (lo_j == hi_j and rng.random() < 0.5) else [lo_j, hi_j],
             "num_machines": lo_m if (lo_m == hi_m and rng.random() < 0.5) else [lo_m, hi_m],
-            "duration_range": rng.choice([[1, 99], [1, 1], [5, 5], [0, 3], [10, 20], [0, 0], [0, 1]]),
+            "duration_range": rng.choice([[1, 99], [1, 1], [5, 5], [0, 3], [10, 20], [0, 0], [0, 1],
+                                          [2**53, 2**53 + 1], [10**16, 10**16 + 5]]),
             "allow_less_jobs_than_machines": not flag,
             "allow_recirculation": rng.random() < 0.4,
             "machines_per_operation": rng.choice([1, 1, 1, [1, 1]]),     # the int or the equivalent pair
